@@ -109,6 +109,27 @@ def gen_query(rng, keys):
     return "%s:%s" % (kind, q)
 
 
+def signed_sibling_cases(rng, n):
+    """Siblings that are negative as `char` (>= 0x80) next to ASCII siblings under one node: std::map<char,...>,
+    freeze() and the frozen binary search must all use the same (signed) order."""
+    HI = ["80", "9f", "c3", "e9", "ff"]
+    LO = ["01", "2f", "41", "61", "7a", "7f"]
+    cases = []
+    for _ in range(n):
+        pre = rkey(rng, 0, 2, odd=0.0)
+        sibs = rng.sample(HI, rng.randint(1, 3)) + rng.sample(LO, rng.randint(1, 3))
+        rng.shuffle(sibs)
+        keys = [pre + b + (rkey(rng, 0, 1) if rng.random() < 0.4 else "") for b in sibs]
+        toks = ["A%d" % rng.choice([0, 1])] + ["a:%s=%d" % (k, i + 1) for i, k in enumerate(keys)]
+        if rng.random() < 0.3:
+            toks.append("r:" + rng.choice(keys))
+        qs = keys + [pre + b for b in HI + LO if rng.random() < 0.5]
+        body = ["L:" + q for q in qs] + ["G:" + q for q in keys] + ["H:" + q for q in keys]
+        toks += body + ["S", "D", "f" if toks[0] == "A0" else "d"] + body + ["S"]
+        cases.append(" ".join(toks))
+    return cases
+
+
 def exhaustive_small():
     """All histories of <= 3 adds/removes over keys from {a, ab, abc, b} with all queries <= 3 over {a,b,c}
     prefixes: a deterministic batch that always contains the off-by-one witness shape."""
@@ -162,7 +183,8 @@ def run(run, tier, seed, replay_case=None):
     rng = random.Random(seed * 7919 + 28)
     corpus = C.load_corpus(PROP)
     n = 1500 if tier == "quick" else 40000
-    cases = list(corpus) + exhaustive_small() + [gen_case(rng, tier) for _ in range(n)]
+    cases = list(corpus) + exhaustive_small() + signed_sibling_cases(rng, 60 if tier == "quick" else 2000) + \
+        [gen_case(rng, tier) for _ in range(n)]
     if replay_case is not None:
         cases = [replay_case]
     env = C.lib_env("asan")
